@@ -55,8 +55,11 @@ func runC19(x *Ctx) {
 					}
 					if strings.HasPrefix(paths.FuncName(g), prefix) && !strings.HasSuffix(paths.FuncName(g), ".init") {
 						n++
-						if !allowed[load.ShortName(f)] {
-							bad += x.P.Pos(in.Pos()) + ": " + paths.FuncName(g) + " called from " + load.ShortName(f) + "\n"
+						// the caller, or the confirmed functions a closure / new helper belongs to
+						for _, o := range x.P.Owners(f) {
+							if !allowed[load.ShortName(o)] {
+								bad += x.P.Pos(in.Pos()) + ": " + paths.FuncName(g) + " called from " + load.ShortName(f) + " (reached from " + load.ShortName(o) + ")\n"
+							}
 						}
 					}
 				}
